@@ -5,6 +5,7 @@
   of the hats.  Exact identities over every ordered field.
 -/
 import ManifProofs.Properties.C07
+import ManifProofs.Properties.C01
 import ManifProofs.Lemmas.Tree
 
 set_option linter.all false
@@ -19,8 +20,6 @@ theorem dotTree_eq_sum (a b : List K) : dotTree a b = (List.zipWith (· * ·) a 
   simp only [List.length_zipWith]
   omega
 
-/-- a row-major `n×n` list as a matrix -/
-def matOfRows (n : ℕ) (l : List K) : Matrix (Fin n) (Fin n) K := fun i j => l.getD (n * i + j) 0
 
 /-! ## SE3 -/
 namespace SE3T
